@@ -21,7 +21,7 @@ Lemma key_classes_disjoint :
   pairwise (fun a b => negb (is_prefix a b)) class_prefixes = true /\
   forallb (fun k => forallb (fun p => negb (is_prefix p k)) class_prefixes) exact_keys = true /\
   pairwise (fun a b => negb (name_eqb a b)) exact_keys = true.
-Proof. vm_compute. auto. Qed.
+Proof. vm_compute. auto 10. Qed.
 
 (* the model's extractDomain agrees with the real one on the regenerated table of Host spellings *)
 Lemma extract_table_agrees :
@@ -29,7 +29,7 @@ Lemma extract_table_agrees :
 Proof. split; [vm_compute; reflexivity|vm_compute; lia]. Qed.
 
 Lemma status_strings_distinct : pairwise (fun a b => negb (name_eqb a b)) StatusStrings = true /\ length StatusStrings = 3%nat.
-Proof. vm_compute. auto. Qed.
+Proof. vm_compute. auto 10. Qed.
 
 Lemma default_base_domain_exists : DefaultBaseDomains <> [] /\ forallb (fun b => negb (name_eqb b [])) DefaultBaseDomains = true.
 Proof. split; [discriminate|vm_compute; reflexivity]. Qed.
@@ -38,5 +38,7 @@ Proof. split; [discriminate|vm_compute; reflexivity]. Qed.
    on the hybrid store the index and (when present) the removal guard live in the shared tier, and Incr is one atomic call *)
 Lemma store_primitives : memory_store_has_Incr_and_SetNX = true /\ hybrid_index_is_shared = true /\
   hybrid_mapping_is_shared_persistent = true /\ implb delete_is_guarded hybrid_removal_guard_is_shared = true /\
-  hybrid_incr_is_get_then_set = false.   (* since d88dca0 hybrid.Storage.Incr delegates to its cache tier's atomic IncrBy *)
-Proof. vm_compute. auto. Qed.
+  hybrid_incr_is_get_then_set = false /\
+  (* C19_delete_success_frees_name_under_faults needs the index entry to be deleted before the record *)
+  implb delete_is_guarded delete_index_before_record = true.   (* since d88dca0 hybrid.Storage.Incr delegates to its cache tier's atomic IncrBy *)
+Proof. vm_compute. auto 10. Qed.
